@@ -28,7 +28,8 @@ def gen(rng, k, dll=None):
         outcome = rng.choice(['clean', 'clean', 'lost', 'abort', 'silent', 'nobody', 'rerequest', 'hold'])
         sz = rng.choice([61, 100, 200]) if fd else rng.choice([9, 20, 40])
         if kind == 'bam':
-            pf, ps = 0xFE, rng.randrange(256)
+            # a broadcast is a PDU2 group or a PDU1 group sent to the global address
+            pf, ps = (0xFE, rng.randrange(256)) if rng.random() < 0.5 else (0xB0 + i % 8, 255)
         else:
             d = rng.choice([x for x in (0, 1, 2) if x != s])
             pf, ps = 0xD0 + i % 8, (addr[d] if outcome != 'nobody' else 0x77)
